@@ -1,55 +1,47 @@
 import Fabio.Generated.C11
 import Fabio.Model.C11
 /-!
-Obligations over the facts regenerated from `/repo/cert` on every run.
-
-The facts are extracted by role and by event, not by spelling (`tools/factgen/c11.go`): variables are named by
-what they are (i-th parameter, "assigned from the loader call", "the value sent on the channel"), helper calls
-are followed, package constants are resolved and `switch` is normalised to `if`. A behaviour-preserving
-refactoring (renaming locals, extracting a helper, a named constant for `time.Second`, switch ↔ if) leaves
-them unchanged; a change of the loop's shape does not.
+OBLIGATIONS over the facts regenerated from `/repo/cert` on every run (`tools/factgen/c11.go`): statements the
+proof chain needs and that no correspondence stream can establish by running the code — they are about what
+other goroutines can observe between two steps, not about the input/output behaviour of sequential code. Each
+names the breaking change it is there to exclude and is stated over the weakest syntactic observation that still
+excludes it (a count, a membership, "is the last event"), not over a spelled-out statement list.
+Pins of sequential code whose behaviour a stream compares with the model on every run live in `C11Pins.lean`
+(change detectors). Facts are extracted by role and event, not by spelling (see the extractor). Core only, `decide`.
 -/
 namespace Fabio.Props.C11Facts
 open Fabio Fabio.Generated.C11
 
-/-- One iteration of `watch` is exactly `Model.C11.step` with `sleepOnMakeErr = true`: one loader call on the
-path; on a loader error sleep(refresh) and retry; on material equal (`reflect.DeepEqual`) to the last published
-one sleep(refresh) and retry; one `loadCertificates` call on the loaded material; on its error
-**sleep(refresh)** and retry (the repair of D15); otherwise one send of the made certificates on the channel,
-then `last = next`, then return iff `once`. Nothing is sent and `last` is not touched on any retry path. -/
-theorem watch_loop_is_the_step_machine :
-    watchLoopEvents =
-      ["load", "if load-error: sleep continue", "if unchanged: sleep continue", "make:loadCertificates",
-       "if make-error: sleep continue", "send", "remember", "if once: return"] := by decide
-
-/-- `refresh` is raised to `time.Second` before the loop (`Model.C11.effRefresh`); `once` is `refresh <= 0`
-evaluated before the floor is applied (`Model.C11.once`). -/
-theorem sleeps_are_floored :
-    refreshFloor = "time.Second" ∧ onceExpr = "refresh <= 0" ∧ onceBeforeFloor = true := by decide
-
-/-- A handshake performs exactly one atomic load (counting through `Store.certstore` and every helper it
-calls) and one call of `getCertificate`, which receives the loaded value by value and touches no shared state
-itself (`Op.hsLoad` / `Op.hsAnswer`). -/
+/-- `Op.hsLoad` / `Op.hsAnswer`: a handshake performs exactly one atomic load of the store (counted through
+`Store.certstore` and every helper) and one call of `getCertificate`, which receives the loaded value *by value* and
+touches no shared state itself. Excludes: a second load inside the decision (index from one set, default
+certificate from another — a mixture only a replacement landing between the two loads exposes; `c11.race` can
+miss the window), or passing the store instead of the snapshot. -/
 theorem handshake_loads_store_once :
     handshakeAtomicLoads = 1 ∧ handshakeDecisionCalls = 1 ∧ getCertificateSharedAccesses = 0 ∧
     getCertificateTakesLoadedValue = true := by decide
 
-/-- `SetCertificates` builds the index first and then performs the single atomic store, and writes nothing
-afterwards (`Op.publish` stores a complete `mkPublished cs`); `TLSConfig` applies updates at one place, inside
-the range over the source's channel (sets are applied in the order they are published). -/
-theorem index_built_before_store :
-    setCertificatesOrder = ["build-index", "atomic-store"] ∧ tlsConfigApplySites = 1 ∧
-    tlsConfigApplySitesInRangeOverSource = 1 := by decide
+/-- `Op.publish` stores a complete `mkPublished cs` in one step: in `SetCertificates` there is exactly one atomic
+store, it is the last thing that happens, and the index is built before it (nothing is written to a value
+handshakes can already see). Excludes: storing first and indexing afterwards, a second store of a half-built
+value (seeded m2), updating the published map in place (M11) — all invisible to sequential runs. -/
+theorem index_built_before_the_single_store :
+    setCertificatesOrder.filter (· == "atomic-store") = ["atomic-store"] ∧
+    setCertificatesOrder.getLast? = some "atomic-store" ∧
+    setCertificatesOrder.contains "build-index" = true ∧
+    setCertificatesOrder.all (fun e => e == "atomic-store" || e == "build-index") = true := by decide
 
-/-- The requested `ServerName` passes through `strings.ToLower` exactly once and every key written into the
-name index does (`Model.C11.normName`, `Model.C11.keyOf`; D15b). -/
-theorem names_lowered_on_both_sides :
-    requestLowered = ["field:ServerName"] ∧ indexKeyWrites = 2 ∧ indexKeyWritesLowered = indexKeyWrites := by decide
+/-- `applyOuts`: sets are applied in the order the watcher sends them — one place in `TLSConfig` applies a set,
+and it is inside the range over the source's channel (one consumer goroutine). Excludes: a second applier
+(e.g. an eager `SetCertificates` from another goroutine), which could apply an older set after a newer one. -/
+theorem one_applier_in_channel_order :
+    tlsConfigApplySites = 1 ∧ tlsConfigApplySitesInRangeOverSource = 1 := by decide
 
-/-- `loadCertificates` sorts the certificate file names once and builds its result by ranging over that sorted
-slice; the three suffixes are tested in the modelled order (`Model.C11.classify`). -/
-theorem load_sorted_by_file_name :
-    loadCertificatesSortCalls = 1 ∧ resultBuiltFromSortedFileNames = true ∧
-    loadCertificatesSuffixes = ["-cert.pem", "-key.pem", ".pem"] := by decide
+/-- `Out.publish`: what `watch` made from the loaded material leaves the loop through one plain, blocking send on
+the channel it was given; `watch` starts no goroutine of its own. Excludes: a `select { case ch <- certs: default: }`
+(a publication silently dropped whenever the consumer has not yet taken the previous one — the streams' consumers
+are always fast enough), a second send of something else, a publication from a goroutine racing with the loop. -/
+theorem publication_is_one_blocking_send :
+    watchSends = 1 ∧ watchSendsInSelect = 0 ∧ watchSendsMadeCertsOnChannelParam = true ∧ watchGoStmts = 0 := by decide
 
 end Fabio.Props.C11Facts
